@@ -26,6 +26,7 @@ type Gen struct {
 	SimpleRefs   bool    // allow $ref inside simple-schema items / headers (invalid swagger, analyzable)
 	PathItemRefs bool
 
+	nonBodySchema bool
 	defNames   []string
 	paramNames []string
 	respNames  []string
@@ -324,7 +325,7 @@ func (g *Gen) Param() M {
 		p["enum"] = g.enumVals()
 		g.hit("param:enum")
 	}
-	if g.p(0.05) {
+	if g.nonBodySchema && g.p(0.05) {
 		// non-body parameter carrying a schema: loadable, only analysed at path level
 		p["schema"] = g.Schema(1)
 		g.hit("param:nonbody-schema")
@@ -537,6 +538,7 @@ var pathPool = []string{"/pets", "/pets/{id}", "/a", "/a-b", "/a_b", "/users/{us
 var allMethods = []string{"get", "put", "post", "delete", "options", "head", "patch"}
 
 type DocOpts struct {
+	NonBodySchema bool // non-body parameters may carry a schema (loadable, invalid swagger; outside the domain of C11-C13)
 	NoPathsProb float64
 	DupIDs      bool
 	MinimalTop  bool // no info etc (not needed for analysis)
@@ -545,6 +547,7 @@ type DocOpts struct {
 // Doc generates a whole document.
 func (g *Gen) Doc(o DocOpts) M {
 	d := M{"swagger": "2.0", "info": M{"title": "t", "version": "1"}}
+	g.nonBodySchema = o.NonBodySchema
 	g.defNames = g.distinctNames(g.n(6))
 	g.paramNames = nil
 	g.respNames = nil
